@@ -30,4 +30,12 @@ def Expr.nestedConj {V : Type} : Expr V → Bool
 exactly ONE disjunction whose terms are mark-free below their mark, nested to any depth -/
 def Expr.NestedSingle {V : Type} (e : Expr V) : Bool := e.nestedConj && decide (e.chains = 1)
 
+/-- the fragment "mark-free conjuncts first, the nested (marked) disjunction last":
+`pre & (t1 | … | tn)` where `pre` is ANY mark-free expression (atoms, disjunctions, nested
+disjunctions, conjunctions of them, any depth) and the terms `ti` are mark-free below their mark -/
+def Expr.PreNested {V : Type} : Expr V → Bool
+  | .and pre (.or l r) => !pre.hasAnyMark && (Expr.or l r).mfChain
+  | .and pre (.paren (.or l r)) => !pre.hasAnyMark && (Expr.or l r).mfChain
+  | _ => false
+
 end CueVerif.Disj
